@@ -176,7 +176,7 @@ def mk(cid, mode, lines, nopt=1, namelen=1, maxw=2, desc='', timeout=600, extra=
           'vf_print_document.0': width + 1, 'vf_print_document.1': nl + 1}  # inner loop has the lower id
     doc = ' | '.join(l.text for l in lines)
     return Case(cid, 'aconf.c', d, unwind=max(maxlen + 3, 9), unwindset=uw, checks='safety' if mode == 'c17' else 'func',
-                safety_owner='C17' if mode == 'c17' else 'C20', unwind_owner='C17' if mode == 'c17' else 'C20', timeout=timeout, funcs=FUNCS, object_bits=10, instrument=INSTRUMENT,
+                safety_owner='C17', unwind_owner='C17' if mode == 'c17' else 'C20', timeout=timeout, funcs=FUNCS, object_bits=10, instrument=INSTRUMENT,
                 desc=(desc + ' ' if desc else '') + 'template: ' + doc +
                 ' (_ blank byte, n/x name/argument byte, e escaped byte, c comment byte, ?/! arbitrary byte of the alphabet / non-blank)')
 
